@@ -9,10 +9,10 @@ from props import _shm, _wipe, C02, C03
 BODY = ("From CB Require Import SeqlockInv GenCyc SeqlockRA SeqlockMono SeqlockFresh.\nFrom CB.Properties Require Import C02 C03 C04.\n"
         "Theorem current_cfg_safe : safe_cfg current_cfg = true.\nProof. vm_compute. reflexivity. Qed.\n"
         "Theorem current_retries_positive : (0 < c_retries current_cfg)%N.\nProof. vm_compute. reflexivity. Qed.\n"
-        "Definition C04_a_complete_records_for_the_running_code := fun ts m o => C02_RA_window current_cfg ts m o current_cfg_safe.\n"
+        "Definition C04_a_complete_records_for_the_running_code := fun (RF : RecFun) ts m o => @C02_RA_window RF current_cfg ts m o current_cfg_safe.\n"
         "Definition C04_a_publication_order_for_the_running_code := fun ts m o => C03_monotone_RA_window current_cfg ts m o current_cfg_safe.\n"
-        "Definition C04_b_for_the_running_code := fun ts m o j r q e => C04_restarted_publications_seen current_cfg ts m o j r q e current_cfg_safe current_retries_positive.\n"
-        "Definition C04_c_for_the_running_code := fun ts m o => C04_never_emptied_under_clients current_cfg ts m o current_cfg_safe.\n"
+        "Definition C04_b_for_the_running_code := fun (RF : RecFun) ts m o j r q e => @C04_restarted_publications_seen RF current_cfg ts m o j r q e current_cfg_safe current_retries_positive.\n"
+        "Definition C04_c_for_the_running_code := fun (RF : RecFun) ts m o => @C04_never_emptied_under_clients RF current_cfg ts m o current_cfg_safe.\n"
         "Print Assumptions C04_a_complete_records_for_the_running_code.\nPrint Assumptions C04_b_for_the_running_code.\n")
 
 
